@@ -26,7 +26,7 @@ PROPS = {
              "oracle: parse->render->xrender under catch_unwind on grammar/spec/mutated/adversarial/malformed documents x configuration sample (subsets, orders, max_nesting); non-trivial = contains a markdown-significant character; distinct by hash of (cfg, source)",
              ["whole-pipeline totality theorem is _partial: mechanism theorems + rule-level correspondence + oracle cover the composition",
               "hang = wall time beyond 2 s + 1 ms/byte; stack exhaustion is covered by C02"]),
-    'C02': P('C02', [], ('C02', 3000, 20000),
+    'C02': P('C02', [('nest', 1500, 20000)], ('C02', 3000, 20000),
              "oracle: 16 nesting families x sizes up to the budget x max_nesting in {0,1,3,10,100}; recursion gauge (hook) and tree depth compared with 4*max_nesting+16; non-trivial = size >= 150",
              ["actual stack exhaustion is a runtime fact; the model bounds frames and depth, the oracle observes the gauge on a 3 GiB-stack thread"]),
     'C03': P('C03', [('render', 3000, 40000)], ('C03', 4000, 60000),
@@ -41,10 +41,10 @@ PROPS = {
     'C06': P('C06', [], ('C06', 3000, 60000),
              "oracle: both metamorphic relations on all tab-free spec inputs (with and without html) and generated/mutated tab-free documents; tree equality modulo the computed shift for the quote relation",
              ["list relation: every line (blank ones included) indented by the marker width, D contains a non-blank line"]),
-    'C07': P('C07', [], ('C07', 1500, 30000),
+    'C07': P('C07', [('pstate', 2000, 30000)], ('C07', 1500, 30000),
              "oracle: histories of 2-9 documents (reference definitions then uses, unclosed code spans, emphasis lower-bound triggers, fences) on one parser, each compared with a fresh parser (tree with ranges, HTML, XHTML)",
              ["per-document state is local to one parse call: static scan of interior-mutable items"]),
-    'C08': P('C08', [('ruler', 2000, 30000)], ('C08', 3000, 60000),
+    'C08': P('C08', [('ruler', 2000, 30000), ('pstate', 2000, 30000)], ('C08', 3000, 60000),
              "ruler stream: add/alias/before/after/remove/contains/iter histories on one REAL Ruler (with its cache) vs the cache-free model; oracle: add/remove/parse histories over 8 rule kinds (custom block, inline with markers x ( e-acute +, core, shipped escape and hr) compared with the same history without intermediate parses",
              []),
     'C09': P('C09', [('ruler', 4000, 60000)], ('C09', 4000, 80000),
@@ -59,7 +59,7 @@ PROPS = {
     'C12': P('C12', [], ('C12', 2500, 30000),
              "oracle: named references of the entities table (all in thorough), numeric references over boundary classes + random sample in 3 spellings, 32 escapes x 5 contexts; round trip on random printable strings",
              []),
-    'C13': P('C13', [], ('C13', 4000, 80000),
+    'C13': P('C13', [('refs', 2500, 40000)], ('C13', 4000, 80000),
              "oracle: k definitions (case/whitespace/case-fold variants, in quotes and items, before/after the use) x 4 use forms; expected target = first definition of the same base label",
              ["U+0131 dotless i is additionally identified with i/I by lower-then-upper normalisation (documented, not tested as a non-match)"]),
     'C14': P('C14', [('inlineops', 2000, 30000)], ('C14', 5000, 100000),
@@ -75,7 +75,7 @@ PROPS = {
              "url stream: byte strings biased to '%' near the end, hex/non-hex after '%', bytes >= 0x80, 8 safe-set families, both modes; non-trivial = contains a byte >= 0x80 or a '%' within the last three bytes; distinct by hash of the request line",
              ["bytes are modelled as Nat < 256 (hypothesis `Bytes bs`)",
               "AsciiSet is modelled as its 128-bit constant; `has` is only consulted for bytes < 128 (short-circuit in the Rust)"]),
-    'C18': P('C18', [], ('C18', 4000, 80000),
+    'C18': P('C18', [('alt', 2500, 40000)], ('C18', 4000, 80000),
              "oracle: ![D](x) for generated inline descriptions; alt attribute vs plain-text display of the image node's own children",
              []),
     'C19': P('C19', [('render', 3000, 40000)], ('C19', 3000, 60000),
